@@ -417,7 +417,35 @@ def run_process(ctx, spec):
             import resource
             ru0 = resource.getrusage(resource.RUSAGE_CHILDREN)
             try:
-                if mode == '-l':
+                if mode == '-l' and rng.random() < 0.3:
+                    # the log is not a regular file: a named pipe (what `-l <(app 2>&1)` is), written by somebody else
+                    import threading
+                    fn = os.path.join(d, 'in.fifo')
+                    if os.path.exists(fn):
+                        os.unlink(fn)
+                    os.mkfifo(fn)
+
+                    def feed(fn=fn, data=data):
+                        try:
+                            with open(fn, 'wb') as f:
+                                f.write(data)
+                        except OSError:
+                            pass
+                    th = threading.Thread(target=feed, daemon=True)
+                    th.start()
+                    try:
+                        r = subprocess.run(main + ['-l', fn], input=b'quit\n', stdout=subprocess.PIPE, stderr=subprocess.PIPE, timeout=180, env=e2)
+                    finally:
+                        # if the tool never opened the pipe the writer is still blocked in open(): release it
+                        try:
+                            fd = os.open(fn, os.O_RDONLY | os.O_NONBLOCK)
+                            os.close(fd)
+                        except OSError:
+                            pass
+                        th.join(timeout=10)
+                    mode = '-l'
+                    ctx.count('logs_loaded_from_a_named_pipe')
+                elif mode == '-l':
                     fn = os.path.join(d, 'in.log')
                     open(fn, 'wb').write(data)
                     r = subprocess.run(main + ['-l', fn], input=b'quit\n', stdout=subprocess.PIPE, stderr=subprocess.PIPE, timeout=180, env=e2)
